@@ -78,6 +78,11 @@ func vh_user_restore() {
 			vAssert(c.a == want && c.b == pre.term, "C12.restore.stored-snapshot-matches-leader-position")
 		}
 	}
+	for _, c := range env.snaps.calls {
+		if c.op == opSnapClose && c.ok {
+			vAssert(vIOCopyN(0) == meta.Size, "C20.restore.only-complete-stream-becomes-durable")
+		}
+	}
 	if err == nil {
 		vCover("restore.success")
 		vAssert(created && nRestore == 1, "C20.restore.fsm-restored-once")
@@ -218,4 +223,68 @@ func vh_override_notify() {
 	got := <-ch
 	vAssert(got == v, "C18.override.holds-latest")
 	vReach("override.end")
+}
+
+// vh_run_leader_noop_fault: a runLeader activation whose very first log write (the no-op of the new
+// term) fails: the server gains and at once loses leadership. Both transitions are announced, in order,
+// on NotifyCh and LeaderCh holds the latest. C18 (faithful pairs), C17 (nothing stranded).
+func vh_run_leader_noop_fault() {
+	w := 2
+	r, env := vNewRaft("L", vRaftOpts{n: 2, w: w, shaped: true})
+	vAssume(vInvBasic(r, env))
+	vAssume(vInvLog(r, env, w))
+	servers := r.configurations.latest.Servers
+	r.localID, r.localAddr = servers[0].ID, servers[0].Address
+	vAssume(servers[0].Suffrage == Voter && servers[1].Suffrage == Voter)
+	r.state = Leader
+	r.leaderAddr, r.leaderID = r.localAddr, r.localID
+	base := vBase()
+	lastIndex := r.getLastIndex()
+	vAssume(lastIndex >= base && lastIndex+1 <= base+uint64(w))
+	notify := make(chan bool, 4)
+	useNotify := vChoose("notifyCh", 0, 1) == 1
+	cfg := r.conf.Load().(Config)
+	if useNotify {
+		cfg.NotifyCh = notify
+	}
+	r.conf.Store(cfg)
+	if vChoose("leaderChStale", 0, 1) == 1 {
+		r.leaderCh <- false
+	}
+	vSpawnPolicy(false)
+	env.logs.failOn, env.logs.writesOnly = true, true
+	vRunUntilBlocked(r.runLeader)
+	env.logs.failOn = false
+	stored := false
+	for _, c := range env.logs.calls {
+		if c.op == opStoreLogs && c.ok {
+			stored = true
+		}
+	}
+	if stored {
+		vCover("noopfault.stored")
+		vAssert(r.getState() == Leader, "C18.noopfault.still-leader-when-stored")
+		if useNotify {
+			vAssert(len(notify) == 1 && <-notify, "C18.noopfault.gain-announced")
+		}
+		vReach("noopfault.end")
+		return
+	}
+	vCover("noopfault.failed")
+	vAssert(r.getState() == Follower, "C18.noopfault.steps-down-when-noop-cannot-be-stored")
+	vAssert(r.leaderState.inflight == nil && r.leaderState.replState == nil, "C17.noopfault.leader-state-cleared")
+	if useNotify {
+		vAssert(len(notify) == 2, "C18.noopfault.gain-and-loss-both-announced")
+		if len(notify) == 2 {
+			a := <-notify
+			b := <-notify
+			vAssert(a && !b, "C18.noopfault.true-then-false")
+		}
+	}
+	vAssert(len(r.leaderCh) == 1, "C18.noopfault.leaderch-one-value")
+	if len(r.leaderCh) == 1 {
+		last := <-r.leaderCh
+		vAssert(!last, "C18.noopfault.leaderch-holds-latest")
+	}
+	vReach("noopfault.end")
 }
